@@ -93,3 +93,14 @@ package lpm
 //@   property C01 C13
 //@   requires txn != nil
 //@   ensures result == txn && txn.root == trie.root && txn.size == trie.size && txn.txnID == trie.prevTxnID + 1
+
+// Iterator.All (C13, C01): iterating neither consumes the iterator nor touches the trie - its
+// work stack is a local array or freshly allocated memory, never the iterator's own stack
+// slice (a LowerBound iterator may be traversed several times).
+//@ func (*Iterator).All
+//@   property C13 C01
+//@   flag nosafety
+//@   flag dyncall.yield=pure
+//@   ensures @iteration-writes-only-its-own-stack onlyFresh()
+//@   loop 1 invariant @own-stack arr(stack) == stackArray || fresh(stack) || cap(stack) == 0
+//@   loop 1 invariant @frame onlyFresh()
